@@ -309,7 +309,7 @@ impl Check for C10 {
         false
     }
     fn rule(&self) -> String {
-        "One run = one valid image (runs 0..2: the repository's non-empty .gds files; others: real-writer output of a G-gds library or an R-gds encoding, <= 64 KiB) and, on it: crash-truncation at EVERY byte offset (quick tier: every offset for images <= 2 KiB, 96 seeded offsets plus all record boundaries +-1 otherwise), EVERY single-record fault for every record (length field := 0/2/3/4/5/len-1/len-2/len+1/len+2/len+4/0xFFFE/0xFFFF, zero-length payload, record type := every number 0..0x3C and 0x3D/0x7F/0x80/0xFF (quick: 19 representative ones), data type := 0..7 and 0xFF, record deleted, duplicated, swapped with its neighbour, spliced from elsewhere in the image and from another image; quick tier on large images: a seeded 1/8 sample of records), plus seeded noise (1..32 byte overwrites, pure random strings, valid prefix + random tail). Every case is read by from_bytes; 1 case in 4 (all cases of small images) also by open through a counting SimSource under a benign schedule. evaluations counts cases; non-trivial = damaged image differs from the valid one; distinct = distinct damaged-image digests.".into()
+        "One run = one valid image (runs 0..2: the repository's non-empty .gds files; others: real-writer output of a G-gds library or an R-gds encoding, <= 64 KiB) and, on it: crash-truncation at EVERY byte offset (quick tier: every offset for images <= 2 KiB, 96 seeded offsets plus all record boundaries +-1 otherwise), EVERY single-record fault for every record (length field := 0/2/3/4/5/len-1/len-2/len+1/len+2/len+4/0xFFFE/0xFFFF, zero-length payload, record type := every number 0..0x3C and 0x3D/0x7F/0x80/0xFF (quick: 19 representative ones), data type := 0..7 and 0xFF, record deleted, duplicated, swapped with its neighbour, spliced from elsewhere in the image and from another image; quick tier on large images: a seeded 1/8 sample of records), plus seeded noise (1..32 byte overwrites, pure random strings, valid prefix + random tail); one scale run reads a 2-9 MB valid image (the sample struct repeated 100-400 times), three cuts of it and a bit flip, under the same step budget. Every case is read by from_bytes; 1 case in 4 (all cases of small images) also by open through a counting SimSource under a benign schedule. evaluations counts cases; non-trivial = damaged image differs from the valid one; distinct = distinct damaged-image digests.".into()
     }
     fn assumptions(&self) -> Vec<String> {
         vec![
@@ -336,6 +336,54 @@ impl Check for C10 {
             let c = read_case(&img, e, t, Some((&io, pol)), "replay", &mut out.probes);
             out.violation = c.violation;
             out.digest = io.borrow().log.finish();
+            return out;
+        }
+        // scale run: a multi-megabyte valid image (the repository's sample struct repeated) and a few faults on it
+        if inp.index == CORPUS.len() as u64 {
+            let base = gdsref::scan(CORPUS[0].1, false).unwrap_or_default();
+            let first_struct = base.iter().position(|r| r.rt == gdsref::BGNSTR).unwrap_or(0);
+            let last = base.len().saturating_sub(1);
+            let mut big: Vec<u8> = Vec::new();
+            for r in &base[..first_struct] {
+                big.extend_from_slice(&rec_bytes(r));
+            }
+            let reps = if inp.tier == Tier::Thorough { 400 } else { 100 };
+            for _ in 0..reps {
+                for r in &base[first_struct..last] {
+                    big.extend_from_slice(&rec_bytes(r));
+                }
+            }
+            let endlib_at = big.len();
+            big.extend_from_slice(&rec_bytes(&base[last]));
+            let mut cases: Vec<(String, Vec<u8>, Option<usize>)> = vec![("scale:valid".into(), big.clone(), None)];
+            for cut in [big.len() - 1, big.len() / 2, endlib_at] {
+                cases.push((format!("scale:truncate@{}", cut), big[..cut].to_vec(), Some(cut)));
+            }
+            let mut d = big.clone();
+            let mid = big.len() / 2;
+            d[mid] ^= 0x40;
+            cases.push(("scale:bitflip-in-the-middle".into(), d, None));
+            for (label, bytes, trunc) in &cases {
+                let full = format!("scale({} bytes) / {}", bytes.len(), label);
+                let c = read_case(bytes, trunc.map(|_| endlib_at + 4), *trunc, Some((&io, Policy::plain())), &full, &mut out.probes);
+                if let Some(v) = c.violation {
+                    if out.violation.is_none() {
+                        out.violation = Some(v);
+                        out.replay_extra = json!({"damage": full, "note": "scale image: rebuild with `check C10 --runs 4`"});
+                    }
+                }
+                out.probes.hit("case_scale");
+                out.probes.add("scale_bytes_read", bytes.len() as u64);
+                out.more_keys.push(fnv64(bytes));
+            }
+            out.evals = cases.len() as u64;
+            if inp.want_sample {
+                out.sample = Some(json!({"image": "scale run", "image_len": big.len(), "structs": reps, "cases": cases.iter().map(|c| c.0.clone()).collect::<Vec<_>>()}));
+            }
+            out.digest = fnv64(format!("{}{}", big.len(), out.violation.is_some()).as_bytes());
+            out.stats = io.borrow().stats.clone();
+            out.steps = io.borrow().steps;
+            out.sim_ns = io.borrow().sim_ns;
             return out;
         }
         let (name, img) = image_for(inp.index, &mut wt);
